@@ -397,7 +397,7 @@ func (realComp) Exec(c *wire.Case, w *wire.Writer) {
 
 // ---- generation -----------------------------------------------------------------------------------
 
-var keyRe = regexp.MustCompile(`(?m)^\s*[A-Za-z0-9_]+\s+(?:Character|LightCone|Relic|Enemy)?\s*=\s*"([a-z0-9_]+)"`)
+var keyRe = regexp.MustCompile(`(?m)^\s*[A-Za-z0-9_]+\s+(?:Character|LightCone|Relic|Enemy)?\s*=\s*"([A-Za-z0-9_]+)"`)
 
 func repoKeys(file string) []string {
 	root := os.Getenv("VERIF_REPO")
@@ -465,7 +465,7 @@ func (s realSpec) rec(name string) *wire.Rec {
 
 func realSpecGen(r *rand.Rand, chars, lcs, relics []string) realSpec {
 	n := 1 + r.Intn(4)
-	s := realSpec{abil: pick(r, 1, 5, 9, 10, 15), energy: pick(r, 0, 50, 200), elevel: pick(r, 1, 50, 80, 95), ehp: pick(r, 2000, 20000, 100000, 1000000),
+	s := realSpec{abil: pick(r, 1, 5, 9, 10, 15), energy: pick(r, 0, 50, 200), elevel: pick(r, 1, 1, 50, 80, 95), ehp: pick(r, 50, 500, 2000, 20000, 100000, 1000000),
 		cycles: pick(r, 1, 2, 3, 5, 8), seed: r.Intn(100000)}
 	perm := r.Perm(len(chars))
 	for i := 0; i < n && i < len(perm); i++ {
